@@ -203,10 +203,36 @@ class FileResolver:
                 glob_part = str(Path(*parts[i:]))
                 break
 
+        tool_ignore = self._get_tool_ignore(root)
         for path in root.glob(glob_part):
             if path.is_file() and self._include_spec.match_file(path.name):
-                if not self._exceeds_max_size(path):
-                    yield path
+                if self._exceeds_max_size(path):
+                    continue
+                if self._is_glob_result_excluded(path, root, tool_ignore):
+                    continue
+                yield path
+
+    def _is_glob_result_excluded(
+        self, path: Path, root: Path, tool_ignore: tuple[Path, pathspec.PathSpec] | None
+    ) -> bool:
+        """
+        Apply the directory-traversal filters to a file found by glob expansion:
+        excluded directories, gitignore, and the tool ignore file.
+        """
+        rel_parts = path.relative_to(root).parts
+        current = root
+        for i, part in enumerate(rel_parts[:-1]):
+            if self._is_dir_excluded(part, Path(*rel_parts[: i + 1]), current, tool_ignore, root):
+                return True
+            current = current / part
+        if self._config.respect_gitignore:
+            if any(s.match_file(path.name) for s in self._get_gitignore_chain(current, root)):
+                return True
+        if tool_ignore:
+            ignore_prefix = self._tool_ignore_prefix(current, tool_ignore)
+            if tool_ignore[1].match_file(ignore_prefix + path.name):
+                return True
+        return False
 
     def _exceeds_max_size(self, path: Path) -> bool:
         """Check if a file exceeds the configured max size. 0 = no limit."""
